@@ -43,6 +43,9 @@ func c17alphabet() []string {
 		out = append(out, t+":pub:/t:-")
 		// a QoS 2 publish started now and released later (other events happen while the message waits in the broker)
 		out = append(out, t+":q2start:t", t+":q2release")
+		// the same handshake by a second client of the tenant whose client identifier (and packet identifier) the other
+		// tenant uses as well: client identifiers are unique per mount point only
+		out = append(out, t+":nq2start:t", t+":nq2release")
 		out = append(out, t+":willdrop", t+":dupid")
 		// a QoS 1 subscription whose deliveries are never acknowledged: every copy that follows (the broker sends the
 		// message again after each acknowledgement timeout) must name the topic the way the first one did
@@ -102,10 +105,12 @@ type c17obs struct {
 	inbox []string
 	alive bool
 	ping  bool
+	// what became of the tenant's second client (the one whose client identifier the other tenant uses too)
+	namesake string
 }
 
 func (o c17obs) String() string {
-	return fmt.Sprintf("alive=%v ping=%v inbox=%v", o.alive, o.ping, o.inbox)
+	return fmt.Sprintf("alive=%v ping=%v inbox=%v second-client=%s", o.alive, o.ping, o.inbox, o.namesake)
 }
 
 // runC17 executes events (already filtered) and returns tenant A's observation plus direct-oracle violations.
@@ -125,6 +130,8 @@ func runC17(t *testing.T, p c17path, events []string, direct func(sig, msg strin
 	w.Step()
 	published := map[byte]map[string]bool{'A': {}, 'B': {}} // tenant -> "topic|payload"
 	pendingQ2 := map[byte][]int32{}
+	namesake := map[byte]*Client{}
+	namesakePending := map[byte]bool{}
 	perTenant := map[byte]int{}
 	for _, ev := range events {
 		otherMount := mount['A']
@@ -162,6 +169,25 @@ func runC17(t *testing.T, p c17path, events []string, direct func(sig, msg strin
 				c.Send(&packet.PubRel{Header: &packet.Header{}, MessageId: id})
 			}
 			pendingQ2[tn] = nil
+		case "nq2start", "nq2release":
+			nc := namesake[tn]
+			if nc == nil {
+				nc = w.NewClient(string(tn)+"-namesake", nodeOf[tn], AckNone)
+				if nc.Connect(ConnectOpts{ClientID: "shared-name", KeepAlive: 600, User: "mp:" + mount[tn]}) != 0 {
+					return obs, false
+				}
+				namesake[tn] = nc
+				w.Step()
+			}
+			if parts[1] == "nq2start" && !namesakePending[tn] {
+				payload := fmt.Sprintf("%c:nq2-%d", tn, k)
+				published[tn][parts[2]+"|"+payload] = true
+				nc.Send(&packet.Publish{Header: &packet.Header{Qos: 2}, Topic: []byte(parts[2]), Payload: []byte(payload), MessageId: 77})
+				namesakePending[tn] = true
+			} else if parts[1] == "nq2release" && namesakePending[tn] {
+				nc.Send(&packet.PubRel{Header: &packet.Header{}, MessageId: 77})
+				namesakePending[tn] = false
+			}
 		case "willdrop":
 			x := w.NewClient(fmt.Sprintf("%c-w%d", tn, k), nodeOf[tn], AckAll)
 			x.Connect(ConnectOpts{ClientID: fmt.Sprintf("w-%c-%d", tn, k), KeepAlive: 600, User: "mp:" + mount[tn], WillTopic: "t", WillMsg: fmt.Sprintf("%c:will%d", tn, k)})
@@ -217,6 +243,14 @@ func runC17(t *testing.T, p c17path, events []string, direct func(sig, msg strin
 		obs.inbox = append(obs.inbox, r.String())
 	}
 	sort.Strings(obs.inbox)
+	obs.namesake = "not-connected"
+	if nc := namesake['A']; nc != nil {
+		var in []string
+		for _, r := range nc.Received() {
+			in = append(in, r.String())
+		}
+		obs.namesake = fmt.Sprintf("closed-by-broker=%v inbox=%v", nc.BrokerClosed(), in)
+	}
 	return obs, true
 }
 
